@@ -135,7 +135,7 @@ func c45Exec(p *keyPool, target int, data, aux []byte, mode uint8) (res c45Resul
 			case 0:
 				ring = p.ring
 			case 1:
-				ring = p.pubRing
+				_, ring = c45SigKeys(p)
 			case 2:
 				ring = openpgp.EntityList{}
 			default:
@@ -180,11 +180,12 @@ func c45Exec(p *keyPool, target int, data, aux []byte, mode uint8) (res c45Resul
 				}
 			}
 		case c45Detached:
-			_, err := openpgp.CheckDetachedSignature(p.pubRing, bytes.NewReader(aux), bytes.NewReader(data))
+			_, vring := c45SigKeys(p)
+			_, err := openpgp.CheckDetachedSignature(vring, bytes.NewReader(aux), bytes.NewReader(data))
 			label = errClass(err)
 			res.progress = err == nil
 			if mode&1 == 1 {
-				_, err2 := openpgp.CheckArmoredDetachedSignature(p.pubRing, bytes.NewReader(aux), bytes.NewReader(data))
+				_, err2 := openpgp.CheckArmoredDetachedSignature(vring, bytes.NewReader(aux), bytes.NewReader(data))
 				label += "+" + errClass(err2)
 			}
 		case c45Armor:
@@ -837,6 +838,16 @@ func c45MutateText(rt *rapid.T, text []byte) ([]byte, string) {
 
 // c45Generate produces one input for one target from the corpus.
 func c45Generate(rt *rapid.T, p *keyPool, items []c45Item) (target int, data, aux []byte, desc string) {
+	if rapid.IntRange(0, 5).Draw(rt, "built") == 0 {
+		// signed artefacts built field by field with correct hash tags (every key algorithm x hash)
+		target, data, aux, desc = c45BuiltSigned(rt, p)
+		if rapid.IntRange(0, 3).Draw(rt, "builtmut") == 0 {
+			var kind string
+			data, kind = c45MutateBinary(rt, p, data)
+			desc += "|" + kind
+		}
+		return
+	}
 	// pick the artefact kind first so that the many key files do not crowd out the rest
 	kinds := []string{"keyring", "armored-keyring", "message", "message", "armored-message", "detached", "armored-detached", "clearsign"}
 	kind := rapid.SampledFrom(kinds).Draw(rt, "kind")
@@ -1008,7 +1019,101 @@ func TestC45(t *testing.T) {
 		}
 		c.Case(false, "", "corpus:"+it.kind)
 	}
+	// sanity of the field-by-field signature builder: its valid artefacts are accepted
+	// (wide digest for every key; and a digest shorter than the DSA group order)
+	if os.Getenv("VF_SKIP_BUILT_SELFCHECK") == "" {
+		keys, _ := c45SigKeys(p)
+		doc := []byte("built document\nsecond line \r\nlast")
+		for _, k := range keys {
+			hashes := []byte{10}
+			if k.algo == 17 {
+				hashes = []byte{10, 2}
+			}
+			for _, h := range hashes {
+				for _, v := range []int{4, 3} {
+					if v == 3 && (k.algo == 19 || h != 2 && k.algo == 17) {
+						continue // v3 signatures: RSA and DSA only
+					}
+					sp := func(t byte) *sigSpec {
+						return &sigSpec{version: v, sigType: t, hashID: h, mpiMode: "valid", tagOK: true, issuer: "unhashed"}
+					}
+					arts := []struct {
+						target int
+						data   []byte
+						aux    []byte
+					}{{c45Detached, buildSig(k, sp(0), doc, &bytesReader{drbg(1)}), doc}, {c45Message, buildOnePass(k, sp(1), doc, drbg(2)), nil}}
+					if v == 4 {
+						arts = append(arts, struct {
+							target int
+							data   []byte
+							aux    []byte
+						}{c45Keyring, buildKeyring(k, sp(0x13), sp(0x18), nil, drbg(3)), nil})
+					}
+					for _, a := range arts {
+						res := c45Exec(p, a.target, a.data, a.aux, 1)
+						if res.err != nil {
+							c.Violation(res.err.Error(), "")
+							t.Fatalf("VF-VIOLATION: property=C45 built valid artefact (key %s, hash id %d, v%d): %v", k.name, h, v, res.err)
+						}
+						okLabel := res.progress && !strings.Contains(res.label, "sigerr") && !strings.Contains(res.label, "body:error")
+						if !okLabel {
+							c.Inconclusive(fmt.Sprintf("signature builder: valid %s artefact for key %s hash %d v%d not accepted (%s)", c45TargetName[a.target], k.name, h, v, res.label))
+							t.Fatalf("signature builder self-check failed: %s key %s hash %d v%d: %s", c45TargetName[a.target], k.name, h, v, res.label)
+						}
+						c.Case(true, fmt.Sprintf("built-valid|%s|%d|v%d|%d", k.name, h, v, a.target), "built-signed:valid-accepted")
+					}
+				}
+			}
+		}
+	}
 	c45Witnesses(t, c, p)
+	// bounded-exhaustive: session key blocks of 0..8 bytes for every encryption key in the ring
+	{
+		n := 0
+		for _, rc := range p.recipients() {
+			sub := rc.ent.Subkeys[0].PublicKey
+			for l := 0; l <= 8; l++ {
+				block := bytes.Repeat([]byte{7}, l)
+				body := []byte{3}
+				for s := 56; s >= 0; s -= 8 {
+					body = append(body, byte(sub.KeyId>>uint(s)))
+				}
+				switch pub := sub.PublicKey.(type) {
+				case *rsa.PublicKey:
+					ct, err := rsa.EncryptPKCS1v15(drbg(uint64(l)), pub, block)
+					if err != nil {
+						continue
+					}
+					body = append(append(body, 1), refpgp.MPI(ct)...)
+				case *elgamal.PublicKey:
+					c1, c2, err := elgamal.Encrypt(drbg(uint64(l)), pub, block)
+					if err != nil {
+						continue
+					}
+					body = append(append(append(body, 16), refpgp.MPI(c1.Bytes())...), refpgp.MPI(c2.Bytes())...)
+				default:
+					continue
+				}
+				msg := refpgp.BuildPacket(1, body, refpgp.LenNew2, nil)
+				msg = append(msg, refpgp.BuildPacket(18, append([]byte{1}, make([]byte, 40)...), refpgp.LenNew1, nil)...)
+				res := c45Exec(p, c45Message, msg, nil, 0)
+				if res.known != "" {
+					if _, l := ev.IsKnownFinding(res.known); l {
+						c.Excluded()
+						continue
+					}
+				}
+				if res.known != "" || res.err != nil {
+					what := fmt.Sprintf("ReadMessage panics on a session key packet for %s whose key block has %d bytes: %v %s", rc.name, l, res.err, res.known)
+					c.Violation(what, "")
+					t.Fatalf("VF-VIOLATION: property=C45 %s", what)
+				}
+				c.Case(true, fmt.Sprintf("keyblock|%s|%d|%s", rc.name, l, res.label), "pkesk-keyblock:enumerated")
+				n++
+			}
+		}
+		c.Exhaustive("session key block lengths 0..8 x every encryption key of the keyring", n)
+	}
 	listed := map[string]bool{}
 	for _, id := range []string{"F31", "F32", "F36"} {
 		_, listed[id] = ev.IsKnownFinding(id)
@@ -1031,6 +1136,15 @@ func TestC45(t *testing.T) {
 		}
 		kinds := descKinds(desc)
 		base := strings.SplitN(desc, "|", 2)[0]
+		if strings.HasPrefix(base, "built-") {
+			// key = artefact kind + key + the spec fields that decide the code path
+			kinds = "built-signed"
+			short := desc
+			if len(short) > 160 {
+				short = short[:160]
+			}
+			base = short
+		}
 		classes := []string{"api=" + c45TargetName[target], "outcome=" + res.label}
 		for _, k := range strings.Split(kinds, "+") {
 			classes = append(classes, "mutation="+strings.SplitN(k, ":", 2)[0])
@@ -1082,6 +1196,10 @@ func FuzzC45Keyring(f *testing.F) {
 			f.Add(it.data)
 		}
 	}
+	krs, _, _, _ := c45BuiltSeeds(p)
+	for _, b := range krs {
+		f.Add(b)
+	}
 	f.Fuzz(func(t *testing.T, data []byte) { fuzzJudge(t, c45Exec(p, c45Keyring, data, nil, 0)) })
 }
 
@@ -1103,6 +1221,10 @@ func FuzzC45Message(f *testing.F) {
 		}
 	}
 	f.Add(c45F32Witness(p), byte(0))
+	_, _, msgs, _ := c45BuiltSeeds(p)
+	for _, b := range msgs {
+		f.Add(b, byte(1))
+	}
 	f.Fuzz(func(t *testing.T, data []byte, mode byte) { fuzzJudge(t, c45Exec(p, c45Message, data, nil, mode)) })
 }
 
@@ -1112,6 +1234,10 @@ func FuzzC45Detached(f *testing.F) {
 		if it.kind == "detached" || it.kind == "armored-detached" {
 			f.Add(it.data, it.aux)
 		}
+	}
+	_, dets, _, doc := c45BuiltSeeds(p)
+	for _, b := range dets {
+		f.Add(b, doc)
 	}
 	f.Fuzz(func(t *testing.T, sig, signed []byte) { fuzzJudge(t, c45Exec(p, c45Detached, sig, signed, 1)) })
 }
@@ -1168,6 +1294,24 @@ func TestGenFuzzSeeds(t *testing.T) {
 	write("FuzzC45Message", "f32-one-byte-session-key-block", c45F32Witness(p), byte(0))
 	write("FuzzC45Message", "f36-elgamal-c2-zero", c45F36Witness(p), byte(0))
 	write("FuzzC45Armor", "f34-empty-header-value", []byte("-----BEGIN PGP MESSAGE-----\nComment: \n\naGVsbG8=\n=R/WK\n-----END PGP MESSAGE-----"), byte(0))
+	// built signatures whose digest is shorter than the DSA group order (seeded change C45-a)
+	keys, _ := c45SigKeys(p)
+	bdoc := []byte("built document\nsecond line \r\nlast")
+	for _, k := range keys {
+		if k.name != "dsa" && k.name != "dsa1024" {
+			continue
+		}
+		h := byte(2)
+		if k.name == "dsa1024" {
+			h = 1
+		}
+		sp := func(t byte) *sigSpec {
+			return &sigSpec{version: 4, sigType: t, hashID: h, mpiMode: "valid", tagOK: true, issuer: "unhashed"}
+		}
+		write("FuzzC45Keyring", "short-digest-selfsig-"+k.name, buildKeyring(k, sp(0x13), sp(0x18), nil, drbg(7)))
+		write("FuzzC45Detached", "short-digest-"+k.name, buildSig(k, sp(0), bdoc, &bytesReader{drbg(8)}), bdoc)
+		write("FuzzC45Message", "short-digest-onepass-"+k.name, buildOnePass(k, sp(0), bdoc, drbg(9)), byte(1))
+	}
 	td := testdataDir()
 	cs, _ := os.ReadFile(filepath.Join(td, "seeds", "gpg-clearsign-ec384.asc"))
 	write("FuzzC45Clearsign", "gpg-clearsign", cs)
